@@ -45,15 +45,33 @@ fn main() {
     let mut rng = Rng::new(seed);
     let mut g = Game::new(&mut tr);
     for round in 0..rounds {
-        // a parent with some history behind it, preferably mid-turn
+        // a parent with some history behind it, preferably late in a turn.  Two rounds out of three
+        // the game is confined to a small region and steered towards twice-seen positions, so that
+        // the repetition bookkeeping (the part of a state that is read most intensively, through the
+        // shared history list) matters for the expansion.
         let n = 6 + rng.below(16);
-        let c = if round % 3 == 0 { shuffle_position(&mut rng) } else { clustered_position(&mut rng, n) };
-        if !g.reset_parsed(&c, rng.chance(0.5), 2 + rng.below(20), "threads") {
-            break;
+        if round % 3 == 0 {
+            let c = clustered_position(&mut rng, n);
+            if !g.reset_parsed(&c, rng.chance(0.5), 2 + rng.below(20), "threads") {
+                break;
+            }
+            let len = 6 + rng.below(30);
+            play(&mut g, &mut rng, Policy::Contact, len, 0.0);
+        } else {
+            let (c, region) = confined_position(&mut rng);
+            if !g.reset_parsed(&c, rng.chance(0.5), 2 + rng.below(20), "threads") {
+                break;
+            }
+            let len = 40 + rng.below(120);
+            play_confined(&mut g, &mut rng, &region, len, 0.0);
+            // advance to a late step of the turn if the game allows it
+            for _ in 0..3 {
+                if g.dead || !g.top().is_play_phase() || g.top().current_step() >= 3 {
+                    break;
+                }
+                play_confined(&mut g, &mut rng, &region, 1, 0.0);
+            }
         }
-        let pol = if round % 3 == 0 { Policy::Shuffle } else { Policy::Contact };
-        let len = 6 + rng.below(30);
-        play(&mut g, &mut rng, pol, len, 0.0);
         if g.dead {
             break;
         }
@@ -91,6 +109,13 @@ fn main() {
                     let mut out = Vec::new();
                     barrier.wait();
                     for pass in 0..3 {
+                        // the shared state itself, observed concurrently (all its queries)
+                        let own: &GameState = if (t + pass) % 2 == 0 { by_ref } else { &by_arc };
+                        let d = match guarded(|| digest(&obs_fields(own, true))) {
+                            Ok(d) => d,
+                            Err(p) => format!("panic:{}", p),
+                        };
+                        out.push((Action::Place(Piece::Rabbit), d)); // marker: logged as [-2,0]
                         let mut order: Vec<usize> = (0..norep.len()).collect();
                         trng.shuffle(&mut order);
                         for &k in order.iter() {
@@ -117,7 +142,11 @@ fn main() {
         g.pending_pop = 0;
         for (t, r) in results.iter().enumerate() {
             for (a, d) in r.iter() {
-                g.tr.tdig(t + 1, a, d, pop);
+                if let Action::Place(_) = a {
+                    g.tr.tdig_self(t + 1, d, pop);
+                } else {
+                    g.tr.tdig(t + 1, a, d, pop);
+                }
                 pop = 0;
             }
         }
